@@ -32,6 +32,9 @@ func init() {
 
 func childServer(args []string) {
 	engine, dir := args[0], args[1]
+	if dir == "-" {
+		dir = ""
+	}
 	clock, _ := strconv.ParseInt(args[2], 10, 64)
 	var armed atomic.Value // string point
 	var armedN int64
